@@ -39,10 +39,30 @@ def _quiet_library():
     np.seterr(all="ignore")
 
 
+def _preload_library():
+    """Import every pygaps submodule up front. pygaps loads model modules lazily; hypothesis harvests numeric constants
+    from the source of loaded local modules whenever sys.modules grows, so without this the generated cases would depend
+    on which check happened to run earlier in the same worker process."""
+    import importlib
+    import pkgutil
+    try:
+        import pygaps
+        for m in pkgutil.walk_packages(pygaps.__path__, "pygaps."):
+            if m.name.startswith("pygaps.cli"):
+                continue
+            try:
+                importlib.import_module(m.name)
+            except Exception:  # noqa - optional dependencies
+                pass
+    except Exception:  # noqa
+        pass
+
+
 def _task(args):
     prop, check_name, tier, seed, shard, nshards, budget_scale = args
     try:
         _quiet_library()
+        _preload_library()
         mod = load_prop(prop)
         check = next(c for c in mod.CHECKS if c.name == check_name)
         ledger = Ledger()
@@ -117,6 +137,7 @@ def main(argv=None):
     t0 = time.perf_counter()
     try:
         _quiet_library()
+        _preload_library()
         mod = load_prop(prop)
         if hasattr(mod, "self_validate"):
             mod.self_validate()
